@@ -456,6 +456,20 @@ class Ctx:
             print(f"EXTENSION-MISMATCH property={self.prop} clause={clause} (outside the property's statement; not a violation) "
                   f"{json.dumps(case, default=str)[:300]}")
 
+    def run_extension(self, name, fn, *a):
+        """Run a stage that lies beyond the property's statement.  Whatever happens inside it - a mismatch, or the stage's own
+        machinery failing on code whose internals it is coupled to - never changes the verdict on the property: a failure is
+        recorded in the evidence and printed as a note."""
+        try:
+            return fn(*a)
+        except (KeyboardInterrupt, SystemExit):
+            raise
+        except BaseException as e:  # noqa
+            self.cov.setdefault("extension_stage_failures", []).append({"stage": name, "error": f"{type(e).__name__}: {e}"[:500]})
+            print(f"EXTENSION-STAGE-FAILED property={self.prop} stage={name} (beyond the property's statement; does not affect the "
+                  f"verdict) {type(e).__name__}: {str(e)[:200]}")
+            return None
+
     # -- verdicts
     def violation(self, clause, case, detail=""):
         k = match_known(self.known, self.prop, clause, case)
